@@ -47,12 +47,13 @@ type hsCfg struct {
 	MuxReq  bool   `json:"muxreq"`
 }
 type hsCase struct {
-	Name    string `json:"name"`
-	Line    hsLine `json:"line"`
-	Cfg     hsCfg  `json:"cfg"`
-	Variant int    `json:"variant"`
-	Offers  string `json:"offers"`
-	Raw     string `json:"raw,omitempty"` // set by the driver: the concrete line
+	Name     string `json:"name"`
+	Line     hsLine `json:"line"`
+	Cfg      hsCfg  `json:"cfg"`
+	Variant  int    `json:"variant"`
+	TLSPools int    `json:"tls_pools"` // which pools a caller-supplied TLS configuration has (0 both, 1 roots only, 2 client CAs only, 3 none)
+	Offers   string `json:"offers"`
+	Raw      string `json:"raw,omitempty"` // set by the driver: the concrete line
 }
 
 var (
@@ -197,7 +198,24 @@ func hsClientConfig(c hsCase, sr *ScriptedRunner, tmp string) *plugin.ClientConf
 	}
 	switch c.Cfg.TLS {
 	case "static":
-		cfg.TLSConfig = staticTLS.Clone()
+		// a TLS configuration of the caller's own: complete, with only one of the two pools, or with none
+		t := staticTLS.Clone()
+		own := func() *x509.CertPool {
+			p := x509.NewCertPool()
+			if leaf, err := x509.ParseCertificate(t.Certificates[0].Certificate[0]); err == nil {
+				p.AddCert(leaf)
+			}
+			return p
+		}
+		switch c.TLSPools % 4 {
+		case 0:
+			t.RootCAs, t.ClientCAs = own(), own()
+		case 1:
+			t.RootCAs = own()
+		case 2:
+			t.ClientCAs = own()
+		}
+		cfg.TLSConfig = t
 	case "auto":
 		cfg.AutoMTLS = true
 	}
